@@ -79,12 +79,13 @@ pub fn type_name(s: &ArrSpec) -> &'static str {
         ArrSpec::Jitter { inner, .. } => match &**inner {
             ArrSpec::Periodic { .. } | ArrSpec::Sporadic { .. } | ArrSpec::SporadicFromPeriodic { .. } => "arrival::Sporadic",
             ArrSpec::Never => "arrival::Never",
-            ArrSpec::Sum(_) => "Vec<ArrivalBound>",
+            ArrSpec::Sum(_) | ArrSpec::Slice(_) => "Vec<ArrivalBound>",
             ArrSpec::SumOf(..) => "arrival::sum_of",
             _ => "arrival::Propagated",
         },
         ArrSpec::Propagated { .. } => "arrival::Propagated",
         ArrSpec::Sum(_) => "Vec<ArrivalBound>",
+        ArrSpec::Slice(_) => "[ArrivalBound]",
         ArrSpec::SumOf(..) => "arrival::sum_of",
     }
 }
@@ -93,7 +94,7 @@ pub fn contains_prefix(s: &ArrSpec) -> bool {
     match s {
         ArrSpec::Prefix { .. } | ArrSpec::PrefixFromBoundUntil { .. } => true,
         ArrSpec::Jitter { inner, .. } | ArrSpec::Propagated { inner, .. } => contains_prefix(inner),
-        ArrSpec::Sum(v) => v.iter().any(contains_prefix),
+        ArrSpec::Sum(v) | ArrSpec::Slice(v) => v.iter().any(contains_prefix),
         ArrSpec::SumOf(a, b) => contains_prefix(a) || contains_prefix(b),
         _ => false,
     }
@@ -192,15 +193,20 @@ pub fn menu(quick: bool) -> Vec<ArrSpec> {
                 continue;
             }
             v.push(ArrSpec::Sum(vec![a.clone(), b.clone()]));
+            v.push(ArrSpec::Slice(vec![a.clone(), b.clone()]));
             v.push(ArrSpec::SumOf(Box::new(a.clone()), Box::new(b.clone())));
             if (i + k) % 4 == 0 {
                 v.push(ArrSpec::Jitter { inner: Box::new(ArrSpec::Sum(vec![a.clone(), b.clone()])), j: 2 });
                 v.push(ArrSpec::Sum(vec![a.clone(), b.clone(), ArrSpec::Sporadic { t: 7, j: 3 }]));
+                v.push(ArrSpec::Slice(vec![a.clone(), ArrSpec::Periodic { t: 4 }, b.clone(), ArrSpec::Periodic { t: 12 }]));
+                v.push(ArrSpec::Jitter { inner: Box::new(ArrSpec::Slice(vec![a.clone(), b.clone()])), j: 3 });
                 v.push(ArrSpec::Jitter { inner: Box::new(ArrSpec::SumOf(Box::new(a.clone()), Box::new(b.clone()))), j: 1 });
             }
         }
     }
     v.push(ArrSpec::Sum(vec![]));
+    v.push(ArrSpec::Slice(vec![]));
+    v.push(ArrSpec::Slice(vec![ArrSpec::Periodic { t: 4 }, ArrSpec::Periodic { t: 12 }]));
     v
 }
 
